@@ -7,6 +7,12 @@ every operation applicable to the forward object AND to its .inv, compared step 
 Operands come in two identities: the very objects already stored (small ints are shared by the interpreter) and
 *equal but distinct* objects ('xeq' ops: 1.0 for 1 in the searches; new equal tuples in the operand-identity matrix) -
 "arbitrary hashable keys and values" are compared by ==, never by identity or type.
+New instances are built from the object of every state (forward side or .inv) by copy(), OneToOne(x), OneToOne.unique(x),
+each also together with keyword pairs; update() takes keyword pairs next to a dict, pairs, an iterator or a OneToOne.
+Every transition of a core menu (all simple writers / removers, one argument of each bulk shape) is executed a second
+time on an object that was *looked at* - every public read on both sides after each step of the history - before the
+operation: reads between mutations must not matter (memoised lookups ...).  What only fails there is reported under
+`<signature>|only-when-the-object-was-read-before`.
 Engine E2 (mc.inputs): exhaustive FrozenDict matrix (every content over <= 3 keys x value alphabet, every insertion
 order, every mutator / derivation).
 
@@ -103,13 +109,80 @@ OTO_UPDATE_SHAPES = {
     'update_dict': 'update(dict)', 'update_pairs': 'update(pairs)', 'update_iter': 'update(iterator)',
     'update_gen': 'update(generator)', 'update_dictkw': 'update(dict,kwargs)', 'update_oto': 'update(OneToOne)',
     'update_inv': 'update(self.inv)', 'update_self': 'update(self)',
+    'update_otokw': 'update(OneToOne,kwargs)', 'update_pairskw': 'update(pairs,kwargs)',
+    'update_iterkw': 'update(iterator,kwargs)',
     'ior_dict': 'ior(dict)', 'ior_pairs': 'ior(pairs)', 'ior_iter': 'ior(iterator)', 'ior_oto': 'ior(OneToOne)',
 }
 OTO_SIMPLE = {'set': 'setitem', 'del': 'delitem', 'pop': 'pop', 'popd': 'pop(default)', 'popitem': 'popitem',
               'setdefault': 'setdefault', 'setdefaultd': 'setdefault(default)', 'clear': 'clear',
-              'copy': 'copy', 'ctor_oto': 'ctor(OneToOne)'}
+              'copy': 'copy', 'ctor_oto': 'ctor(OneToOne)', 'uctor_oto': 'unique(OneToOne)',
+              'ctor_otokw': 'ctor(OneToOne,kwargs)', 'uctor_otokw': 'unique(OneToOne,kwargs)'}
 OTO_CTOR = {'dict': 'ctor(dict)', 'pairs': 'ctor(pairs)', 'iter': 'ctor(iterator)', 'dictkw': 'ctor(dict,kwargs)',
-            'udict': 'unique(dict)', 'upairs': 'unique(pairs)'}
+            'udict': 'unique(dict)', 'upairs': 'unique(pairs)', 'pairskw': 'ctor(pairs,kwargs)',
+            'iterkw': 'ctor(iterator,kwargs)', 'kw': 'ctor(kwargs)', 'udictkw': 'unique(dict,kwargs)',
+            'uiter': 'unique(iterator)', 'ukw': 'unique(kwargs)'}
+OTO_UNIQUE_CTORS = ('udict', 'upairs', 'udictkw', 'uiter', 'ukw')
+# ops that build a NEW instance from the object of the current state (its forward side or its .inv), optionally
+# together with keyword pairs: x.copy(), OneToOne(x), OneToOne(x, **kw), OneToOne.unique(x), OneToOne.unique(x, **kw)
+OTO_DERIVE = ('copy', 'ctor_oto', 'uctor_oto', 'ctor_otokw', 'uctor_otokw')
+OTO_FROM_OTO = ('update_oto', 'ior_oto', 'update_otokw')
+# keyword pairs: the states run over every relation on DOM x DOM, so one value is "new to the source" in some states
+# and "already held by it" in others
+OTO_KWS = ((('a', 1),), (('a', 0), ('b', 0)), (('a', 1), ('b', 2)))
+
+
+def oto_derive(cls, x, op):
+    """The new instance of an OTO_DERIVE op, built from x."""
+    n = op[1]
+    if n == 'copy':
+        return x.copy()
+    kw = dict(op[2]) if len(op) > 2 else {}
+    if n in ('ctor_oto', 'ctor_otokw'):
+        return cls(x, **kw)
+    return cls.unique(x, **kw)
+
+
+def oto_update_from(cls, x, op, other):
+    """An OTO_FROM_OTO op applied to x with the OneToOne `other` as the argument.  Returns the result."""
+    n = op[1]
+    if n == 'update_oto':
+        return x.update(other)
+    if n == 'update_otokw':
+        return x.update(other, **dict(op[3]))
+    y = x
+    y |= other
+    return None if y is x else '<|= rebound the name to another object>'
+
+
+def dup_values(pairs):
+    final = dict(pairs)
+    try:
+        return len(set(final.values())) != len(final)
+    except TypeError:
+        return False
+
+
+def oto_observe(o):
+    """Every public read of both sides, results dropped: an application looks at a mapping between its mutations.
+    The reads must not matter for what later operations do (e.g. through memoised lookups)."""
+    for x in (o, getattr(o, 'inv', None)):
+        if x is None:
+            continue
+        try:
+            len(x); list(x); list(x.items()); list(x.keys()); list(x.values()); repr(x); x == dict(x); x.inv.inv
+            for k in DOM:
+                k in x; x.get(k); x.get(k, 'D')
+        except Hang:
+            raise
+        except Exception:
+            pass
+        for k in DOM:
+            try:
+                x[k]
+            except Hang:
+                raise
+            except Exception:
+                pass
 
 
 def eqv(i):
@@ -203,6 +276,12 @@ def oto_apply(cls, x, op):
             r = x.update(tuple(p) for p in op[2])
         elif n == 'update_dictkw':
             r = x.update(dict(op[2]), **dict(op[3]))
+        elif n == 'update_pairskw':
+            a = [tuple(p) for p in op[2]]; a0 = list(a)
+            r = x.update(a, **dict(op[3]))
+            arg_ok = a == a0
+        elif n == 'update_iterkw':
+            r = x.update(iter([tuple(p) for p in op[2]]), **dict(op[3]))
         elif n == 'update_self':
             r = x.update(x)
         elif n == 'update_inv':
@@ -255,7 +334,7 @@ def oto_model(D, op, r_i):
         if alt != succ[0]:
             succ.append(alt)
         return [('ok', None)], succ
-    if n == 'update_dictkw':
+    if n in ('update_dictkw', 'update_pairskw', 'update_iterkw'):    # positional pairs have distinct keys in the menu
         return [('ok', None)], [oto_seq(D, [tuple(p) for p in op[2]] + [tuple(p) for p in op[3]])]
     if n == 'update_self':
         return [('ok', None)], [D]
@@ -294,8 +373,11 @@ class OtoSpec:
         self.menu, self.root_menu = self._menu()
 
     def cls(self):
-        from boltons import dictutils
-        return dictutils.OneToOne
+        c = getattr(self, '_cls', None)
+        if c is None:
+            from boltons import dictutils
+            c = self._cls = dictutils.OneToOne
+        return c
 
     def _menu(self):
         one = [(p,) for p in PAIRS]
@@ -337,6 +419,14 @@ class OtoSpec:
                 m.append((s, 'ior_oto', l))
             m.append((s, 'update_dictkw', ((0, 1),), (('a', 2),)))
             m.append((s, 'update_dictkw', (), (('a', 1), ('b', 1))))
+            # keyword pairs next to every kind of positional argument
+            for l, kw in [(((0, 1),), (('a', 2),)), (((1, 1), (2, 0)), (('a', 1), ('b', 1)))]:
+                m += [(s, 'update_otokw', l, kw), (s, 'update_pairskw', l, kw), (s, 'update_iterkw', l, kw)]
+            # a new instance built from this one (or from its .inv) through the alternate constructor and/or
+            # together with keyword pairs whose values are new to the source or already held by it
+            m.append((s, 'uctor_oto'))
+            for kw in OTO_KWS:
+                m += [(s, 'ctor_otokw', kw), (s, 'uctor_otokw', kw)]
             # the same writers / removers with operands that are equal to, but not the same objects as, stored ones
             for k, v in PAIRS:
                 for mode in ('k', 'v', 'kv'):
@@ -358,18 +448,39 @@ class OtoSpec:
                 root.append(('f', 'ctor', 'udict', d))
         root.append(('f', 'ctor', 'dictkw', ((0, 1),), (('a', 1),)))
         root.append(('f', 'ctor', 'dictkw', (), (('a', 0), ('b', 2))))
+        for kw in [(('a', 1),), (('a', 0), ('b', 0)), (('a', 2), ('b', 1))]:
+            root += [('f', 'ctor', 'kw', (), kw), ('f', 'ctor', 'ukw', (), kw)]
+            for l in [(), ((0, 1),), ((0, 1), (1, 1)), ((0, 1), (1, 2))]:
+                root += [('f', 'ctor', 'pairskw', l, kw), ('f', 'ctor', 'iterkw', l, kw)]
+                if len(dict(l)) == len(l):
+                    root += [('f', 'ctor', 'dictkw', l, kw), ('f', 'ctor', 'udictkw', l, kw)]
+        for l in [()] + one + [((0, 1), (1, 1)), ((0, 1), (1, 2)), ((0, 1), (0, 2))] + three:
+            root.append(('f', 'ctor', 'uiter', l))
+        # the second variant of a transition: the object was LOOKED AT (every public read, both sides) after each
+        # step of the history before the operation is applied - see expand()
+        self.observed_menu = set(
+            op for op in m if (op[1] in OTO_SIMPLE and op[1] not in ('uctor_oto', 'uctor_otokw')
+                               and not (op[1] == 'popd' and op[3] != 'D'))
+            or op[1] in OTO_FROM_OTO or op[1] in ('update_self', 'update_inv', 'update_dictkw')
+            or (op[1] == 'update_pairs' and op[2] in one + three)
+            or (op[1] in ('update_dict', 'ior_dict', 'update_iter', 'ior_pairs') and op[2] in three))
         return m, root
 
     # ---- building by replay --------------------------------------------------------------------------
     def initial(self):
         return [()]
 
-    def build(self, hist):
-        """Replay hist on a fresh real object and on the model; no checking.  Returns (forward object, model dict)."""
+    def build(self, hist, observe=False):
+        """Replay hist on a fresh real object and on the model; no checking.  Returns (forward object, model dict).
+        observe: every public read is made on the object after each step (results dropped)."""
         cls = self.cls()
         o, D = cls(), {}
+        if observe:
+            oto_observe(o)
         for op in hist:
             o, D = self.advance(cls, o, D, op)
+            if observe:
+                oto_observe(o)
         return o, D
 
     def advance(self, cls, o, D, op):
@@ -379,18 +490,12 @@ class OtoSpec:
         if n == 'ctor':
             y = self.construct(cls, op)
             return y, dict(dict.items(y))
-        if n == 'copy':
-            y = x.copy()
-            return (y if s == 'f' else y.inv), D
-        if n == 'ctor_oto':
-            y = cls(x)
-            return (y if s == 'f' else y.inv), D
-        if n in ('update_oto', 'ior_oto'):
-            other = cls([tuple(p) for p in op[2]])
-            if n == 'update_oto':
-                x.update(other)
-            else:
-                x |= other
+        if n in OTO_DERIVE:
+            y = oto_derive(cls, x, op)
+            o2 = y if s == 'f' else y.inv
+            return o2, dict(dict.items(o2))
+        if n in OTO_FROM_OTO:
+            oto_update_from(cls, x, op, cls([tuple(p) for p in op[2]]))
         else:
             oto_apply(cls, x, op)
         return o, dict(dict.items(o))          # after a sound prefix the model equals the contents
@@ -407,6 +512,18 @@ class OtoSpec:
             return cls(dict(pairs))
         if shape == 'dictkw':
             return cls(dict(pairs), **dict(op[4]))
+        if shape == 'pairskw':
+            return cls(pairs, **dict(op[4]))
+        if shape == 'iterkw':
+            return cls(iter(pairs), **dict(op[4]))
+        if shape == 'kw':
+            return cls(**dict(op[4]))
+        if shape == 'udictkw':
+            return cls.unique(dict(pairs), **dict(op[4]))
+        if shape == 'uiter':
+            return cls.unique(iter(pairs))
+        if shape == 'ukw':
+            return cls.unique(**dict(op[4]))
         if shape == 'upairs':
             return cls.unique(pairs)
         if shape == 'udict':
@@ -416,8 +533,11 @@ class OtoSpec:
     def root_key(self, hist):
         return oto_canon(self.build(hist)[0])
 
-    def case(self, hist, op):
-        return {'config': self.config, 'history': [list(o) for o in hist] + [list(op)]}
+    def case(self, hist, op, observed=False):
+        c = {'config': self.config, 'history': [list(o) for o in hist] + [list(op)]}
+        if observed:
+            c['observed'] = OBSERVED_NOTE
+        return c
 
     # ---- exploration -----------------------------------------------------------------------------------
     def expand(self, hist):
@@ -439,6 +559,11 @@ class OtoSpec:
                         else:
                             label = (label[0], label[1] + ' (successor outside the expanded domain: checked, not expanded)')
                     out.append((op, key, label, V))
+                    if op in self.observed_menu:
+                        # the same transition on an object that was looked at after every step so far
+                        o, D = self.build(hist, observe=True)
+                        V2, ok, label, o2 = self.step(o, D, op, hist, observed=True)
+                        out.append((op, None, (label[0] + OBSERVED_TAG, label[1]), only_after_reads(V, V2)))
         except Hang:
             op = cur[0]
             out.append((op, None, (oto_opname(op), 'hang'),
@@ -446,11 +571,12 @@ class OtoSpec:
                           'no return within the %d s CPU budget of the state' % OP_BUDGET, None, ())]))
         return out
 
-    def step(self, o, D, op, hist):
+    def step(self, o, D, op, hist, observed=False):
         """Apply op to the real object (o = forward object) and to the model D (forward dict).
-        Returns (violations, ok, label, successor forward object)."""
+        Returns (violations, ok, label, successor forward object).  observed: o was built with build(observe=True);
+        the oracles that rebuild the state from the history (independence) are left to the plain variant."""
         V = []
-        case = self.case(hist, op)
+        case = self.case(hist, op, observed)
         name = oto_opname(op)
         s, n = op[0], op[1]
         cls = self.cls()
@@ -459,26 +585,23 @@ class OtoSpec:
             sig = 'C17|read:OneToOne.%s' % what if read else 'C17|op:%s|%s' % (name, what)
             V.append((sig, case, exp, obs, None, ()))
 
-        if n in ('ctor', 'copy', 'ctor_oto'):
-            return self.step_new(cls, o, D, op, hist, V, bad, name)
+        if n == 'ctor' or n in OTO_DERIVE:
+            return self.step_new(cls, o, D, op, hist, V, bad, name, observed)
 
         x = o if s == 'f' else o.inv
         Dx = D if s == 'f' else transpose(D)
         other = None
-        if n in ('update_oto', 'ior_oto'):
+        if n in OTO_FROM_OTO:
             pairs = [tuple(p) for p in op[2]]
             other = cls(pairs)
             other_before = oto_canon(other)
             try:
-                if n == 'update_oto':
-                    r_i = ('ok', x.update(other))
-                else:
-                    y = x; y |= other
-                    r_i = ('ok', None if y is x else '<|= rebound the name to another object>')
+                r_i = ('ok', oto_update_from(cls, x, op, other))
             except Exception as e:
                 r_i = ('exc', type(e).__name__)
             arg_ok = oto_canon(other) == other_before
-            res, succ = [('ok', None)], [oto_seq(Dx, list(oto_seq({}, pairs).items()))]   # model of `other`, not the object
+            kwp = [tuple(p) for p in op[3]] if n == 'update_otokw' else []
+            res, succ = [('ok', None)], [oto_seq(Dx, list(oto_seq({}, pairs).items()) + kwp)]   # model of `other`, not the object
         else:
             cop = oto_concrete(op)              # 'xeq' ops: operands materialised as new equal objects right here
             r_i, arg_ok = oto_apply(cls, x, cop)
@@ -493,7 +616,7 @@ class OtoSpec:
             bad('contents', succ[0], got); ok = False
         if ok and not arg_ok:
             bad('argument-changed', 'argument left as passed', 'argument mutated'); ok = False
-        if ok and other is not None:
+        if ok and other is not None and not observed:
             ok = self.independence(hist, op, bad)
         if ok:
             self.battery(o, dict(dict.items(o)), bad)
@@ -525,10 +648,7 @@ class OtoSpec:
             o, _ = self.build(hist)
             x = o if s == 'f' else o.inv
             other = cls([tuple(p) for p in op[2]])
-            if n == 'update_oto':
-                x.update(other)
-            else:
-                x |= other
+            oto_update_from(cls, x, op, other)
             tgt, oth = (other, o) if direction == 'argument mutated' else (o, other)
             before = oto_canon(oth)
             for mut in OTO_MUTS:
@@ -540,8 +660,8 @@ class OtoSpec:
                     break
         return ok
 
-    def step_new(self, cls, o, D, op, hist, V, bad, name):
-        """Ops that produce a new instance: root constructors, copy(), OneToOne(x)."""
+    def step_new(self, cls, o, D, op, hist, V, bad, name, observed=False):
+        """Ops that produce a new instance: root constructors, copy(), OneToOne(x), OneToOne(x, **kw), unique(x ...)."""
         s, n = op[0], op[1]
         x = o if s == 'f' else o.inv
         Dx = D if s == 'f' else transpose(D)
@@ -549,10 +669,8 @@ class OtoSpec:
         try:
             if n == 'ctor':
                 y = self.construct(cls, op)
-            elif n == 'copy':
-                y = x.copy()
             else:
-                y = cls(x)
+                y = oto_derive(cls, x, op)
             r = 'ok'
         except Exception as e:
             y, r = None, type(e).__name__
@@ -560,12 +678,15 @@ class OtoSpec:
         if n == 'ctor':
             pairs = [tuple(p) for p in op[3]] + ([tuple(p) for p in op[4]] if len(op) > 4 else [])
             want = oto_seq({}, pairs)
-            final = dict(pairs)
-            clash = len(set(final.values())) != len(final)
-            if op[2] in ('upairs', 'udict') and clash and r == 'ValueError':
+            if op[2] in OTO_UNIQUE_CTORS and dup_values(pairs) and r == 'ValueError':
                 return V, False, label, o          # documented refusal; nothing was built, nothing to expand
         else:
-            want = dict(Dx)
+            kwp = [tuple(p) for p in op[2]] if len(op) > 2 else []
+            want = oto_seq(Dx, kwp)
+            if n in ('uctor_oto', 'uctor_otokw') and dup_values(list(Dx.items()) + kwp) and r == 'ValueError':
+                if oto_canon(o) != src_before:       # refused (documented) - but the source must be left alone
+                    bad('source-changed', src_before[1:3], oto_canon(o)[1:3])
+                return V, False, label, o
         if y is None:
             bad('result', 'an instance holding %r' % want, 'raised ' + r)
             return V, False, label, o
@@ -582,12 +703,12 @@ class OtoSpec:
                 bad('source-changed', src_before[1:3], oto_canon(o)[1:3]); ok = False
             if getattr(y, 'inv', None) is x.inv or getattr(y, 'inv', None) is x:
                 bad('independence', 'own inverse object', 'shares the inverse with its source'); ok = False
-        if ok and n != 'ctor':
+        if ok and n != 'ctor' and not observed:
             # independence: mutate one of (source, new) step by step, the other must never change
             for direction in ('source mutated', 'copy mutated'):
                 o1, _ = self.build(hist)
                 x1 = o1 if s == 'f' else o1.inv
-                y1 = x1.copy() if n == 'copy' else cls(x1)
+                y1 = oto_derive(cls, x1, op)
                 tgt, oth = (o1, y1) if direction == 'source mutated' else (y1, o1)
                 before = oto_canon(oth)
                 for mut in OTO_MUTS:
@@ -602,10 +723,43 @@ class OtoSpec:
             self.battery(o2, dict(dict.items(o2)), bad)
         return V, ok, label, (o2 if ok else o)
 
+    def reads_agree(self, x, Dx):
+        """Fast path of the read battery: True only when every read of battery() answers as expected.  Anything
+        else (a different answer, any exception) -> False, and battery() repeats the reads one by one to name the
+        one that disagrees; the verdict is that of the one-by-one pass."""
+        try:
+            ks = sorted(Dx, key=rkey)
+            if not (len(x) == len(Dx) and dict(x) == Dx and sorted(x.items(), key=rkey) == sorted(Dx.items(), key=rkey)
+                    and sorted(x.keys(), key=rkey) == ks and sorted(x.values(), key=rkey) == sorted(Dx.values(), key=rkey)
+                    and sorted(x, key=rkey) == ks and (x == dict(Dx)) is True
+                    and x.inv is x.inv and x.inv.inv is x):
+                return False
+            for k in self.dom:
+                if k in Dx:
+                    if not ((k in x) is True and x[k] == Dx[k] and x.get(k, 'D') == Dx[k]):
+                        return False
+                else:
+                    if (k in x) is not False or x.get(k, 'D') != 'D':
+                        return False
+                    try:
+                        x[k]
+                        return False
+                    except Exception as e:
+                        if type(e).__name__ != 'KeyError':
+                            return False
+            return True
+        except Hang:
+            raise
+        except Exception:
+            return False
+
     def battery(self, o, D, bad):
         """Read oracles on a state that passed the state oracle."""
         k0 = oto_canon(o)
         for side, x, Dx in (('', o, D), ('inv.', o.inv, transpose(D))):
+            if self.reads_agree(x, Dx):
+                continue
+
             def read(nm, fn, want):
                 try:
                     got = fn()
@@ -627,6 +781,19 @@ class OtoSpec:
             read('inv-is-stable', lambda: x.inv is x.inv and x.inv.inv is x, True)
         if oto_canon(o) != k0:
             bad('reads-changed-the-state', k0[1:3], oto_canon(o)[1:3], read=True)
+
+
+OBSERVED_TAG = '[object read before the call]'
+OBSERVED_NOTE = ('second variant of the transition: after every step of the history (and on the fresh object) every '
+                 'public read was made on both sides, results dropped')
+
+
+
+def only_after_reads(plain, observed):
+    """Violations of the observed variant of a transition that its plain variant did not raise, under a signature
+    of their own: what is wrong without any read keeps its one signature."""
+    seen = set(v[0] for v in plain)
+    return [(v[0] + '|only-when-the-object-was-read-before',) + tuple(v[1:]) for v in observed if v[0] not in seen]
 
 
 OTO_MUTS = ([('f', 'set', 2, 2), ('i', 'set', 0, 1), ('f', 'setdefaultd', 1, 0), ('f', 'update_pairs', ((0, 0),)),
@@ -770,7 +937,9 @@ def tr_pairs(P):
     return frozenset((v, k) for k, v in P)
 
 
-M2M_SHAPES = {'add': 'add', 'setitem_iter': 'setitem(iterator)', 'update_pairs': 'update(pairs)',
+M2M_SHAPES = {'add': 'add', 'setitem_iter': 'setitem(iterator)', 'setitem_set': 'setitem(set)',
+              'setitem_fset': 'setitem(frozenset)', 'setitem_gen': 'setitem(generator)',
+              'setitem_lookup': 'setitem(lookup-result)', 'update_pairs': 'update(pairs)',
               'update_iter': 'update(iterator)', 'update_dict': 'update(dict)', 'update_m2m': 'update(ManyToMany)',
               'update_self': 'update(self)', 'update_inv': 'update(self.inv)', 'ctor_m2m': 'ctor(ManyToMany)'}
 M2M_CTOR = {'pairs': 'ctor(pairs)', 'iter': 'ctor(iterator)', 'dict': 'ctor(dict)', 'm2m': 'ctor(ManyToMany)',
@@ -827,6 +996,15 @@ def m2m_apply(cls, x, op):
             arg_ok = a == list(op[3])
         elif n == 'setitem_iter':
             x[op[2]] = iter(list(op[3])); r = None
+        elif n == 'setitem_gen':
+            x[op[2]] = (v for v in op[3]); r = None
+        elif n == 'setitem_set':
+            a = set(op[3]); x[op[2]] = a; r = None
+            arg_ok = a == set(op[3])
+        elif n == 'setitem_fset':
+            x[op[2]] = frozenset(op[3]); r = None
+        elif n == 'setitem_lookup':
+            x[op[2]] = x[op[3]]; r = None          # the value set handed out for another (or the same) key
         elif n == 'del':
             del x[op[2]]; r = None
         elif n == 'replace':
@@ -864,8 +1042,13 @@ def m2m_model(P, op):
         if (op[2], op[3]) in P:
             return OK, [P - {(op[2], op[3])}]
         return ABSENT, [P]
-    if n in ('setitem', 'setitem_iter'):
+    if n in ('setitem', 'setitem_iter', 'setitem_gen', 'setitem_set', 'setitem_fset'):
         return OK, [frozenset(p for p in P if p[0] != op[2]) | frozenset((op[2], v) for v in op[3])]
+    if n == 'setitem_lookup':
+        vals = [v for k, v in P if k == op[3]]
+        if not vals:
+            return ABSENT, [P]                       # the lookup of an absent key fails (read oracle 'getitem')
+        return OK, [frozenset(p for p in P if p[0] != op[2]) | frozenset((op[2], v) for v in vals)]
     if n == 'del':
         if any(k == op[2] for k, _ in P):
             return OK, [frozenset(p for p in P if p[0] != op[2])]
@@ -898,8 +1081,16 @@ def m2m_sets(m):
 
 
 def m2m_alias(m):
-    ss = m2m_sets(m)
-    return tuple((i, j) for i in range(len(ss)) for j in range(i + 1, len(ss)) if ss[i][2] is ss[j][2])
+    """Index pairs (i < j, in order) of the internal value sets that are one and the same object."""
+    groups = {}
+    i = 0
+    for x in (m, m.inv):
+        for st in x.data.values():
+            groups.setdefault(id(st), []).append(i)
+            i += 1
+    if len(groups) == i:
+        return ()
+    return tuple(sorted(p for g in groups.values() if len(g) > 1 for p in itertools.combinations(g, 2)))
 
 
 def m2m_canon(m, ordered=True):
@@ -914,8 +1105,47 @@ def m2m_canon(m, ordered=True):
         return ('ManyToMany', 'unreadable', type(e).__name__)
 
 
+def m2m_snapshot(m):
+    """The internal state for before/after comparisons: keys in dict order with their value sets on both sides,
+    which sets are shared objects, inv.inv.  Equal snapshots <=> equal m2m_canon(m); cheaper (no sorting)."""
+    try:
+        inv = m.inv
+        return ([(k, frozenset(vs)) for k, vs in m.data.items()], [(k, frozenset(vs)) for k, vs in inv.data.items()],
+                m2m_alias(m), getattr(inv, 'inv', None) is m)
+    except Exception as e:                                # noqa - a broken structure is still a (distinct) state
+        return ('unreadable', type(e).__name__)
+
+
+def m2m_show(q):
+    if q[0] == 'unreadable':
+        return q
+    return tuple(tuple((k, tuple(sorted(vs, key=rkey))) for k, vs in side) for side in q[:2])
+
+
 def m2m_pairs_public(x):
     return frozenset(x.iteritems())
+
+
+def m2m_observe(m):
+    """Every public read of both sides, results dropped (see oto_observe)."""
+    for x in (m, getattr(m, 'inv', None)):
+        if x is None:
+            continue
+        try:
+            len(x); list(x); list(x.keys()); list(x.iteritems()); repr(x); x == x.inv; x.inv.inv
+            for k in DOM:
+                k in x; x.get(k); x.get(k, 'D')
+        except Hang:
+            raise
+        except Exception:
+            pass
+        for k in DOM:
+            try:
+                x[k]
+            except Hang:
+                raise
+            except Exception:
+                pass
 
 
 class M2mSpec:
@@ -929,8 +1159,11 @@ class M2mSpec:
         self.menu, self.root_menu = self._menu()
 
     def cls(self):
-        from boltons import dictutils
-        return dictutils.ManyToMany
+        c = getattr(self, '_cls', None)
+        if c is None:
+            from boltons import dictutils
+            c = self._cls = dictutils.ManyToMany
+        return c
 
     def canon(self, m):
         return m2m_canon(m, self.ordered)
@@ -952,6 +1185,12 @@ class M2mSpec:
                 for sub in subsets:
                     m.append((s, 'setitem', k, sub))
                 m.append((s, 'setitem_iter', k, (2, 0)))
+                m.append((s, 'setitem_set', k, (k, 2 - k)))     # a set owned by the caller
+                if k == 1:
+                    m.append((s, 'setitem_gen', k, (1, 2)))
+                    m.append((s, 'setitem_fset', k, (0, 1)))
+                for k2 in DOM:
+                    m.append((s, 'setitem_lookup', k, k2))      # x[k] = x[k2]
                 m.append((s, 'del', k))
             for k, k2 in PAIRS:
                 m.append((s, 'replace', k, k2))
@@ -964,6 +1203,14 @@ class M2mSpec:
             for l in [(), ((0, 1),), ((1, 1), (1, 2), (2, 1)), ((2, 0), (0, 2)), tuple(PAIRS)]:
                 m.append((s, 'update_m2m', l))
             m += [(s, 'update_self'), (s, 'update_inv'), (s, 'ctor_m2m')]
+        # the second variant of a transition: the object was LOOKED AT (every public read, both sides) after each
+        # step of the history before the operation is applied - see expand()
+        self.observed_menu = set(
+            op for op in m if op[1] in ('add', 'remove', 'del', 'replace', 'update_self', 'update_inv', 'ctor_m2m')
+            or (op[1] == 'setitem' and op[3] in ((), (1,), (0, 2), (0, 1, 2)))
+            or (op[1] == 'setitem_lookup' and (op[3] - op[2]) % 3 != 2)
+            or (op[1] == 'update_pairs' and op[2] in lists[-4:])
+            or (op[1] == 'update_m2m' and op[2] in (((1, 1), (1, 2), (2, 1)), ((2, 0), (0, 2)))))
         root = [('f', 'ctor', 'none', ())]
         for l in lists:
             root.append(('f', 'ctor', 'pairs', l))
@@ -976,11 +1223,16 @@ class M2mSpec:
     def initial(self):
         return [()]
 
-    def build(self, hist):
+    def build(self, hist, observe=False):
+        """observe: every public read is made on the object after each step (results dropped)."""
         cls = self.cls()
         m = cls()
+        if observe:
+            m2m_observe(m)
         for op in hist:
             m = self.advance(cls, m, op)
+            if observe:
+                m2m_observe(m)
         return m, m2m_pairs_public(m)
 
     def advance(self, cls, m, op):
@@ -1017,8 +1269,11 @@ class M2mSpec:
     def root_key(self, hist):
         return self.canon(self.build(hist)[0])
 
-    def case(self, hist, op):
-        return {'config': self.config, 'history': [list(o) for o in hist] + [core.jsonable(op)]}
+    def case(self, hist, op, observed=False):
+        c = {'config': self.config, 'history': [list(o) for o in hist] + [core.jsonable(op)]}
+        if observed:
+            c['observed'] = OBSERVED_NOTE
+        return c
 
     def expand(self, hist):
         out = []
@@ -1033,6 +1288,11 @@ class M2mSpec:
                     m, P = self.build(hist)
                     V, ok, label, m2 = self.step(m, P, op, hist)
                     out.append((op, self.canon(m2) if ok else None, label, V))
+                    if op in self.observed_menu:
+                        # the same transition on an object that was looked at after every step so far
+                        m, P = self.build(hist, observe=True)
+                        V2, ok, label, m2 = self.step(m, P, op, hist, observed=True)
+                        out.append((op, None, (label[0] + OBSERVED_TAG, label[1]), only_after_reads(V, V2)))
         except Hang:
             op = cur[0]
             nm = m2m_opname(op)
@@ -1093,9 +1353,11 @@ class M2mSpec:
                         return 'then %r gives forward %r / inverse %r' % (list(mut), sorted(F), sorted(B))
         return None
 
-    def step(self, m, P, op, hist):
+    def step(self, m, P, op, hist, observed=False):
+        """observed: m was built with build(observe=True); the oracles that rebuild the state from the history
+        (independence, witness for shared sets) are left to the plain variant."""
         V = []
-        case = self.case(hist, op)
+        case = self.case(hist, op, observed)
         s, n = op[0], op[1]
         cls = self.cls()
         x = m if s == 'f' else m.inv
@@ -1107,7 +1369,7 @@ class M2mSpec:
             V.append((sig, case, exp, obs, None, ()))
 
         if n in ('ctor', 'ctor_m2m'):
-            return self.step_new(cls, m, P, op, hist, V, bad, name)
+            return self.step_new(cls, m, P, op, hist, V, bad, name, observed)
         other = None
         if n == 'update_m2m':
             other = cls([tuple(p) for p in op[2]])
@@ -1132,9 +1394,9 @@ class M2mSpec:
                 bad('contents', sorted(succ[0]), sorted(got)); ok = False
         if ok and not arg_ok:
             bad('argument-changed', 'argument left as passed', 'argument mutated'); ok = False
-        if ok and other is not None:
+        if ok and other is not None and not observed:
             ok = self.independence(hist, op, bad)
-        if ok and m2m_alias(m):
+        if ok and not observed and m2m_alias(m):
             w = self.shared_sets_witness(hist, op)
             if w:
                 ss = m2m_sets(m)
@@ -1173,7 +1435,7 @@ class M2mSpec:
                 return False
         return True
 
-    def step_new(self, cls, m, P, op, hist, V, bad, name):
+    def step_new(self, cls, m, P, op, hist, V, bad, name, observed=False):
         s, n = op[0], op[1]
         x = m if s == 'f' else m.inv
         src_before = m2m_canon(m)
@@ -1197,7 +1459,7 @@ class M2mSpec:
             bad('contents', sorted(want), sorted(m2m_pairs_public(y))); ok = False
         if ok and src is not None and m2m_canon(src) != src_before:
             bad('source-changed', src_before[1:3], m2m_canon(src)[1:3]); ok = False
-        if ok and src is not None:
+        if ok and src is not None and not observed:
             for direction in ('source mutated', 'new instance mutated'):
                 if n == 'ctor':
                     y1, s1 = self.construct(cls, op)
@@ -1209,7 +1471,7 @@ class M2mSpec:
                     ok = False
                     break
         m2 = y if s == 'f' else y.inv
-        if ok and m2m_alias(m2):
+        if ok and not observed and m2m_alias(m2):
             w = self.shared_sets_witness(hist, op)
             if w:
                 bad('shared-value-sets', 'every entry owns its value set', w); ok = False
@@ -1217,10 +1479,50 @@ class M2mSpec:
             self.battery(m2, bad)
         return V, ok, label, (m2 if ok else m)
 
+    @staticmethod
+    def reads_agree(x, Px):
+        """Fast path of the read battery: True only when every read of battery() answers as expected; otherwise
+        battery() repeats the reads one by one to name the one that disagrees (its verdict counts)."""
+        try:
+            by_key = {}
+            for kk, v in Px:
+                by_key.setdefault(kk, set()).add(v)
+            keys = sorted(by_key)
+            if not (len(x) == len(keys) and sorted(x.keys()) == keys and sorted(x) == keys):
+                return False
+            for k in DOM:
+                vals = by_key.get(k) or set()
+                if vals:
+                    if not ((k in x) is True and set(x[k]) == vals and set(x.get(k)) == vals
+                            and set(x.get(k, 'D')) == vals):
+                        return False
+                    r = x[k]
+                    if hasattr(r, 'add'):
+                        r.add('poke')
+                    if frozenset(x.iteritems()) != Px:
+                        return False
+                else:
+                    if (k in x) is not False or set(x.get(k)) != vals or x.get(k, 'D') != 'D':
+                        return False
+                    try:
+                        x[k]
+                        return False
+                    except Exception as e:
+                        if type(e).__name__ != 'KeyError':
+                            return False
+            return True
+        except Hang:
+            raise
+        except Exception:
+            return False
+
     def battery(self, m, bad):
-        k0 = m2m_canon(m)
+        q0 = m2m_snapshot(m)
         P = m2m_pairs_public(m)
         for x, Px in ((m, P), (m.inv, tr_pairs(P))):
+            if self.reads_agree(x, Px):
+                continue
+
             def read(nm, fn, want):
                 try:
                     got = fn()
@@ -1246,8 +1548,8 @@ class M2mSpec:
                             r.add('poke')
                         return frozenset(x.iteritems()) == Px
                     read('getitem-result-is-detached', poke, True)
-        if m2m_canon(m) != k0:
-            bad('reads-changed-the-state', k0[1:3], m2m_canon(m)[1:3], read=True)
+        if m2m_snapshot(m) != q0:
+            bad('reads-changed-the-state', m2m_show(q0), m2m_show(m2m_snapshot(m)), read=True)
 
 
 # ======================================================================================================
@@ -1717,7 +2019,9 @@ def run(ctx):
         'E1: BFS to fixpoint over all histories of the op menu, keys and values from {0,1,2}, every operation on the '
         'forward object and on .inv; a state is the canonical form of the real pair of dicts (items in dict order on '
         'both sides; ManyToMany: value sets sorted, pattern of shared set objects); writers and removers also with '
-        'operands that are equal to but not the same objects as the stored ones (1.0 for 1).  E2: a FrozenDict case is '
+        'operands that are equal to but not the same objects as the stored ones (1.0 for 1); transitions labelled '
+        '"[object read before the call]" are the second execution of a core-menu operation on an object on which every '
+        'public read was made after each step of its history.  E2: a FrozenDict case is '
         'non-trivial when the content is non-empty (hash part: at least two keys, so insertion orders differ)'))
     inputs.run_shards(ctx, oto_identity_shard, [(i, 16) for i in range(16)], part='onetoone-operand-identity', rule=(
         'every one-to-one relation over 3 x 3 tuple objects x every writer / remover on the forward and the inverse side '
@@ -1734,6 +2038,12 @@ def run(ctx):
     fd_cross_process(ctx)
     cov['bounds'] = {'OneToOne/ManyToMany': {'keys': list(DOM), 'values': list(DOM),
                                              'sides': ['forward', 'inv'], 'search': 'fixpoint',
+                                             'read_before_the_call_variant': {
+                                                 'OneToOne ops': sorted(set(oto_opname(op) for op in specs[0].observed_menu)),
+                                                 'ManyToMany ops': sorted(set(M2M_SHAPES.get(op[1], op[1])
+                                                                              for op in specs[1].observed_menu)),
+                                                 'per state': [len(specs[0].observed_menu), len(specs[1].observed_menu)]},
+                                             'keyword_pairs': [list(map(list, kw)) for kw in OTO_KWS],
                                              'operand_identity': ['the stored object (shared small int)',
                                                                   'equal object of another type (float), xeq ops']},
                      'OneToOne operand identity': {'objects': 'tuples ("obj", i), i in %r' % (DOM,),
@@ -1800,12 +2110,13 @@ def replay(ctx, data):
     else:
         spec = M2mSpec(ordered=cfg['canon'].startswith('dict order of'))
     hist = [tup(op) for op in case['history']]
+    observed = bool(case.get('observed'))
     try:
         with Budget(OP_BUDGET):
             for i in range(len(hist)):
                 pre = tuple(hist[:i])
-                st, model = spec.build(pre)
-                V, ok, label, _ = spec.step(st, model, hist[i], pre)
+                st, model = spec.build(pre, observe=observed)
+                V, ok, label, _ = spec.step(st, model, hist[i], pre, observed=observed)
                 for v in V:
                     msgs.append('step %d %r: %s expected=%r observed=%r' % (i, hist[i], v[0], v[2], v[3]))
                 if not ok:
